@@ -78,8 +78,13 @@ def tasks_for(tier):
     return T
 
 
+def nt_path():
+    return os.path.join(BUILD, "mir", "num_traits_rel.mir")
+
+
 def run_task(t):
     from mirsym.iomodel import IoProgram
+    IoProgram.nt_text = open(nt_path()).read()
     from mirsym.writer_check import WriterCheck
     from mirsym.core import Unsupported, PathLimit
     t0 = time.time()
@@ -115,6 +120,7 @@ def build_tools():
     for dbg in (False, True):
         txt = core.dump_mir(_k.REPO, "rlib/io", os.path.join(BUILD, "mir"), dbg, "dbg" if dbg else "rel")
         open(mir_path(dbg), "w").write(txt)
+    open(nt_path(), "w").write(core.dump_mir(_k.REPO, "rlib/num_traits", os.path.join(BUILD, "mir"), False, "rel"))
 
 
 def native_write(script_ops, release):
@@ -160,9 +166,10 @@ VALIDATION = [
 def validate_translator():
     """concrete scripts through mirsym (both MIR variants) and through the native build (dev and release)"""
     from mirsym.iomodel import IoProgram, WriteEnv
-    from mirsym.core import Machine, I, Arr, SliceRef, Ref, Vec, Opaque
+    from mirsym.core import Machine, I, Arr, SliceRef, Ref, Vec, Opaque, Panic
     from mirsym.writer_check import WriterCheck
-    n, bad = 0, []
+    n, bad, native_bad = 0, [], []
+    IoProgram.nt_text = open(nt_path()).read()
     for dbg in (False, True):
         prog = IoProgram(open(mir_path(dbg)).read())
         wc = WriterCheck(prog, prog.buf_size("writer"))
@@ -171,26 +178,31 @@ def validate_translator():
             m.env = WriteEnv()
             w, _ = wc.new_writer(None)
             slot = [w]
-            for o in ops:
-                p = o.split(":")
-                if p[0] == "f":
-                    wc.run_op(m, Ref(slot, 0), ("flush",), None)
-                elif p[0] == "c":
-                    wc.run_op(m, Ref(slot, 0), ("char",), I(int(p[1]), "char"))
-                elif p[0] in ("s", "S", "p"):
-                    data = bytes.fromhex(p[1]) if p[0] != "p" else b"x" * int(p[1])
-                    arr = Arr(len(data), I(0, "u8"), {i: I(b, "u8") for i, b in enumerate(data)})
-                    val = Ref([Vec([I(b, "u8") for b in data], True)], 0) if p[0] == "S" else Ref([SliceRef(arr, 0, len(data))], 0)
-                    wc.run_op(m, Ref(slot, 0), ("string",) if p[0] == "S" else ("str",), val)
-                else:
-                    wc.run_op(m, Ref(slot, 0), ("int", p[0]), Ref([I(int(p[1]), p[0])], 0))
-            m.run(prog.writer_fns["drop"], [Ref(slot, 0)], {})
-            got = bytes(b.v for b in m.env.sink)
+            try:
+              for o in ops:
+                  p = o.split(":")
+                  if p[0] == "f":
+                      wc.run_op(m, Ref(slot, 0), ("flush",), None)
+                  elif p[0] == "c":
+                      wc.run_op(m, Ref(slot, 0), ("char",), I(int(p[1]), "char"))
+                  elif p[0] in ("s", "S", "p"):
+                      data = bytes.fromhex(p[1]) if p[0] != "p" else b"x" * int(p[1])
+                      arr = Arr(len(data), I(0, "u8"), {i: I(b, "u8") for i, b in enumerate(data)})
+                      val = Ref([Vec([I(b, "u8") for b in data], True)], 0) if p[0] == "S" else Ref([SliceRef(arr, 0, len(data))], 0)
+                      wc.run_op(m, Ref(slot, 0), ("string",) if p[0] == "S" else ("str",), val)
+                  else:
+                      wc.run_op(m, Ref(slot, 0), ("int", p[0]), Ref([I(int(p[1]), p[0])], 0))
+              m.run(prog.writer_fns["drop"], [Ref(slot, 0)], {})
+              got = bytes(b.v for b in m.env.sink)
+            except Panic as e:
+                got = b"PANIC: " + str(e).encode()
             nat = native_write(ops, release=not dbg)
             n += 1
-            if not (got == exp == nat):
+            if nat != exp:
+                native_bad.append((ops, not dbg, (nat or b"")[-40:], exp[-40:]))
+            elif got != exp:
                 bad.append((ops, dbg, got[-30:], (nat or b"")[-30:], exp[-30:]))
-    return n, bad
+    return n, bad, native_bad
 
 
 def discharge_lemmas(lemmas, cap_s):
@@ -236,7 +248,16 @@ def run_engine(tier, seed, known, only):
     t0 = time.time()
     out = {"records": [], "violations": [], "known": [], "inconclusive": []}
     build_tools()
-    nval, bad = validate_translator()
+    nval, bad, native_bad = validate_translator()
+    if native_bad:
+        # the REAL build (through a lawful but picky sink: partial writes, Interrupted) does not deliver the formatted bytes
+        rdir = os.path.join(VERIF, "replays", "C09"); os.makedirs(rdir, exist_ok=True)
+        path = os.path.join(rdir, "writer_native_script.json")
+        json.dump({"property": "C09", "scripts": [dict(ops=o, release=r, native_tail=repr(n), expected_tail=repr(e)) for o, r, n, e in native_bad],
+                   "how": ".build/C09/ioreplay/<profile>/vh_ioreplay write '<ops joined by ;>'"}, open(path, "w"), indent=1)
+        out["violations"].append("VIOLATION property=C09 replay=%s" % os.path.relpath(path, VERIF))
+        out["records"].append({"name": "native concrete scripts", "engine": "native", "status": "FAIL", "ok": False, "queries": nval, "desc": "concrete write scripts on the real build through a picky sink", "bounds": "concrete", "time": time.time() - t0})
+        return out
     out["records"].append({"name": "translator-validation", "engine": "mirsym", "status": "PASS" if not bad else "MISMATCH", "ok": not bad, "queries": nval,
                            "desc": "%d concrete write scripts: mirsym's execution of both MIR variants vs the native dev and release builds vs plain formatting" % nval, "bounds": "concrete", "time": time.time() - t0})
     if bad:
